@@ -1895,7 +1895,14 @@ class C17Run(OnionRun):
             return t.create_filesystem_authenticated_onion_endpoint(c['public_port'], self.hsdir, self.auth_object(),
                                                                     group_readable=c['group_readable'], version=c['version'])
         # constructor: the configuration is an instance, a Deferred that has fired, or one that fires later
-        if step == 'config':
+        if step == 'config' and ch.chance(1, 3, 'bootinst'):
+            # a TorConfig instance that is still bootstrapping when listen() is called, and whose bootstrap then fails
+            from txtorcon.torconfig import TorConfig
+            self.injected = None
+            self.tor.fail_next['GETINFO'] = err(551, 'Internal error')
+            sim.probe('config-instance-bootstrap-fails')
+            cfg = TorConfig(control=self.proto)
+        elif step == 'config':
             self.injected = RuntimeError('configuration unavailable (injected)')
             if c['config_mode'] == 'pending-deferred':
                 cfg = defer.Deferred()
